@@ -221,6 +221,11 @@ class _Canon(ast.NodeTransformer):
                 kws.remove(nxt[0])
             if len(args) != len(n.args):
                 n = ast.copy_location(ast.Call(func=f, args=args, keywords=kws), n)
+        # np.zeros(shape, dtype=float) -> np.zeros(shape): float64 is the default of zeros / ones / empty
+        if isinstance(f, ast.Attribute) and isinstance(f.value, ast.Name) and f.value.id in ("np", "numpy") and f.attr in ("zeros", "ones", "empty") and n.keywords:
+            kws = [k_ for k_ in n.keywords if not (k_.arg == "dtype" and ast.unparse(k_.value) in ("float", "np.float64", "numpy.float64", "'float64'", "'float'", "np.float_", "np.double"))]
+            if len(kws) != len(n.keywords):
+                n = ast.copy_location(ast.Call(func=f, args=list(n.args), keywords=kws), n)
         # dict(a, **b) -> {**a, **b}
         if isinstance(f, ast.Name) and f.id == "dict" and len(n.args) == 1 and n.keywords and all(k.arg is None for k in n.keywords):
             return ast.copy_location(ast.Dict(keys=[None] * (1 + len(n.keywords)), values=[n.args[0]] + [k.value for k in n.keywords]), n)
